@@ -106,22 +106,26 @@ package css
 //@   ensures[S]  result ==> l.r.pos == old(l.r.pos)+3
 
 //@ func Lexer.consumeMatch
+//@   ensures[S]  @kind: result == ErrorToken || result == IncludeMatchToken || result == DashMatchToken || result == PrefixMatchToken || result == SuffixMatchToken || result == SubstringMatchToken
 //@   preserves[S] lexStep(l)
 //@   requires[S] l.r.buf[l.r.pos] != 0
 //@   ensures[S]  result == ErrorToken ==> l.r.pos == old(l.r.pos)
 //@   ensures[S]  result != ErrorToken ==> l.r.pos == old(l.r.pos)+2
 
 //@ func Lexer.consumeBracket
+//@   ensures[S]  @kind: result == ErrorToken || result == LeftParenthesisToken || result == RightParenthesisToken || result == LeftBracketToken || result == RightBracketToken || result == LeftBraceToken || result == RightBraceToken
 //@   preserves[S] lexStep(l)
 //@   ensures[S]  result == ErrorToken ==> l.r.pos == old(l.r.pos)
 //@   ensures[S]  result != ErrorToken ==> l.r.pos == old(l.r.pos)+1
 
 //@ func Lexer.consumeNumeric
+//@   ensures[S]  @kind: result == ErrorToken || result == PercentageToken || result == DimensionToken || result == NumberToken
 //@   preserves[S] lexStep(l)
 //@   ensures[S]  result == ErrorToken ==> l.r.pos == old(l.r.pos)
 //@   ensures[S]  result != ErrorToken ==> l.r.pos > old(l.r.pos)
 
 //@ func Lexer.consumeString
+//@   ensures[S]  @kind: result == BadStringToken || result == StringToken
 //@   preserves[S] lexStep(l)
 //@   requires[S] l.r.buf[l.r.pos] != 0
 //@   ensures[S]  result != ErrorToken && l.r.pos > old(l.r.pos)
@@ -136,6 +140,7 @@ package css
 //@   loop 1 decreases len(l.r.buf) - l.r.pos
 
 //@ func Lexer.consumeIdentlike
+//@   ensures[S]  @kind: result == ErrorToken || result == IdentToken || result == FunctionToken || result == BadURLToken || result == URLToken
 //@   preserves[S] lexStep(l)
 //@   ensures[S]  result == ErrorToken ==> l.r.pos == old(l.r.pos)
 //@   ensures[S]  result != ErrorToken ==> l.r.pos > old(l.r.pos)
